@@ -108,4 +108,18 @@ def Val.sqrt (a : Val) : Except String Val :=
   | some x => if x < 0.0 then .error "ValueError" else .ok (.flt x.sqrt)
   | Option.none => .error "TypeError"
 
+/-- `len(v)` -/
+def Val.lenV (v : Val) : Except String Val :=
+  match v with
+  | .str s => .ok (.int s.length)
+  | _ => match v.elems with
+    | some l => .ok (.int l.length)
+    | Option.none => .error "TypeError"
+
+/-- what `for x in v` iterates over -/
+def Val.elemsE (v : Val) : Except String (List Val) :=
+  match v.elems with
+  | some l => .ok l
+  | Option.none => .error "TypeError"
+
 end Rx
